@@ -31,6 +31,9 @@ type DecisionOpts struct {
 	Outcome func(in ssa.Instruction, c *Canon) (string, bool)
 	// MaxPaths bounds the enumeration (default 50000).
 	MaxPaths int
+	// ResolvePhis renders every phi by the value of the edge taken on the current path
+	// (use for loop-free functions whose result is a merge of alternatives).
+	ResolvePhis bool
 }
 
 // EnumerateDecisions walks the CFG of fn. Every If contributes a literal over a canonical
@@ -184,7 +187,7 @@ func EnumerateDecisions(p *Program, fn *ssa.Function, opts DecisionOpts) (paths 
 					// only constants and booleans are resolved path-sensitively; everything else
 					// keeps its φname so that loop-carried variables stay iteration-independent
 					e := ph.Edges[idx]
-					if isBoolType(ph) {
+					if isBoolType(ph) || opts.ResolvePhis {
 						st.phiEdge[ph] = e
 					}
 				}
@@ -328,11 +331,11 @@ type fAnd []Formula
 type fOr []Formula
 type fConst bool
 
-func A(name string) Formula        { return fAtom(name) }
-func Not(x Formula) Formula        { return fNot{x} }
-func And(xs ...Formula) Formula    { return fAnd(xs) }
-func Or(xs ...Formula) Formula     { return fOr(xs) }
-func True() Formula                { return fConst(true) }
+func A(name string) Formula                 { return fAtom(name) }
+func Not(x Formula) Formula                 { return fNot{x} }
+func And(xs ...Formula) Formula             { return fAnd(xs) }
+func Or(xs ...Formula) Formula              { return fOr(xs) }
+func True() Formula                         { return fConst(true) }
 func (a fAtom) eval(env map[string]int) int { return env[string(a)] }
 func (n fNot) eval(env map[string]int) int  { return -n.x.eval(env) }
 func (c fConst) eval(env map[string]int) int {
@@ -424,10 +427,10 @@ func CheckDecisionList(r *Report, rule, fnKey string, paths []DecisionPath, atom
 	}
 	reached := map[string]int{}
 	type group struct {
-		why   string
-		pos   string
-		n     int
-		wit   []string
+		why string
+		pos string
+		n   int
+		wit []string
 	}
 	groups := map[string]*group{}
 	var gkeys []string
